@@ -69,6 +69,13 @@ type world struct {
 	wg      sync.WaitGroup
 	fault   *faultPlan
 	conn    *rpc.Conn
+	// embargo scenarios (spec/rpc/RpcEmbargo.tla): the peer as a FIFO reflector
+	answers   map[int]*capnp.Answer // local calls kept for pipelining, by tag
+	keepRel   []capnp.ReleaseFunc   // their release functions (run at wind-down)
+	inbox     []J                   // messages from the Conn the reflecting peer has not handled yet
+	nextPeerQ int                   // next question id the reflecting peer uses
+	reflected map[int]int           // peer question id (reflected call) -> the Conn's question id it came from
+	recvTag   map[int]bool          // tags of calls the peer sent (a call of the Conn carrying one of them is a forwarded call)
 }
 
 func base() J {
@@ -301,6 +308,148 @@ func (w *world) recordSend(m rpccp.Message) {
 		e["m"] = "other:" + m.Which().String()
 	}
 	w.log(e)
+	w.peerSees(e)
+}
+
+// peerSees is the reflecting peer's inbox (embargo scenarios): pipelined calls, calls forwarded to the
+// peer's own capability, Disembargoes and Returns that carry one of the peer's capabilities wait for a
+// p-pump action.  The Return of a call the peer reflected is passed on to the original caller at once.
+func (w *world) peerSees(e J) {
+	relevant := false
+	switch e["m"] {
+	case "call":
+		tag, _ := e["tag"].(int)
+		w.mu.Lock()
+		fw := w.recvTag[tag]
+		w.mu.Unlock()
+		relevant = e["tgt"] == "ans" || (e["tgt"] == "imp" && fw)
+	case "disembargo":
+		relevant = true
+	case "return":
+		if cs, ok := e["caps"].([]interface{}); ok {
+			for _, d := range cs {
+				if d.([]interface{})[0] == "receiverHosted" {
+					relevant = true
+				}
+			}
+		}
+		w.mu.Lock()
+		cq, ok := w.reflected[e["q"].(int)]
+		if ok {
+			delete(w.reflected, e["q"].(int))
+		}
+		w.mu.Unlock()
+		if ok {
+			pq := e["q"].(int)
+			// finish the reflected question, answer the original one with the same result
+			msg, rm := w.newMsg()
+			f, _ := rm.NewFinish()
+			f.SetQuestionId(uint32(pq))
+			f.SetReleaseResultCaps(false)
+			go func() {
+				w.deliver(msg, J{"m": "finish", "q": pq, "rel": false})
+				msg2, rm2 := w.newMsg()
+				r, _ := rm2.NewReturn()
+				r.SetAnswerId(uint32(cq))
+				r.SetReleaseParamCaps(false)
+				ev := J{"m": "return", "q": cq}
+				if e["kind"] == "results" {
+					p, _ := r.NewResults()
+					st, _ := capnp.NewStruct(p.Segment(), capnp.ObjectSize{DataSize: 8, PointerCount: 1})
+					tag, _ := e["tag"].(int)
+					st.SetUint32(0, uint32(tag))
+					p.SetContent(st.ToPtr())
+					ev["kind"], ev["tag"] = "results", tag
+				} else {
+					x, _ := r.NewException()
+					x.SetReason("verif-reflected-exception")
+					ev["kind"] = "exception"
+				}
+				w.deliver(msg2, ev)
+			}()
+		}
+	}
+	if relevant {
+		w.mu.Lock()
+		w.inbox = append(w.inbox, e)
+		w.mu.Unlock()
+	}
+}
+
+// pump lets the reflecting peer handle the next message of its inbox.
+func (w *world) pump(a action) {
+	w.mu.Lock()
+	if len(w.inbox) == 0 {
+		w.mu.Unlock()
+		return
+	}
+	e := w.inbox[0]
+	w.inbox = w.inbox[1:]
+	w.mu.Unlock()
+	switch e["m"] {
+	case "call":
+		tag, _ := e["tag"].(int)
+		if e["tgt"] == "ans" {
+			// a call pipelined on a question the peer answered with one of the Conn's own capabilities: reflect it
+			exp, ok := w.exportOf(1)
+			if !ok {
+				return
+			}
+			w.mu.Lock()
+			pq := w.nextPeerQ
+			w.nextPeerQ++
+			w.reflected[pq] = e["q"].(int)
+			w.mu.Unlock()
+			msg, rm := w.newMsg()
+			c, _ := rm.NewCall()
+			c.SetQuestionId(uint32(pq))
+			c.SetInterfaceId(meth.InterfaceID)
+			c.SetMethodId(meth.MethodID)
+			t, _ := c.NewTarget()
+			t.SetImportedCap(uint32(exp))
+			fillParams(c, tag, -1, "")
+			w.sentQ[pq] = true
+			w.deliver(msg, J{"m": "call", "q": pq, "tag": tag, "tgt": "imp", "e": exp})
+		} else {
+			// a call forwarded to a capability the peer hosts: deliver it there and return its result
+			w.log(J{"ev": "peer-deliver", "tag": tag, "e": e["e"]})
+			msg, rm := w.newMsg()
+			r, _ := rm.NewReturn()
+			r.SetAnswerId(uint32(e["q"].(int)))
+			r.SetReleaseParamCaps(false)
+			p, _ := r.NewResults()
+			st, _ := capnp.NewStruct(p.Segment(), capnp.ObjectSize{DataSize: 8, PointerCount: 1})
+			st.SetUint32(0, uint32(1000+tag))
+			p.SetContent(st.ToPtr())
+			w.deliver(msg, J{"m": "return", "q": e["q"], "kind": "results", "tag": 1000 + tag})
+		}
+	case "return":
+		// the answer is one of the peer's own capabilities: ask for the loop-back
+		msg, rm := w.newMsg()
+		d, _ := rm.NewDisembargo()
+		d.Context().SetSenderLoopback(7)
+		t, _ := d.NewTarget()
+		pa, _ := t.NewPromisedAnswer()
+		pa.SetQuestionId(uint32(e["q"].(int)))
+		ops, _ := pa.NewTransform(1)
+		ops.At(0).SetGetPointerField(0)
+		w.deliver(msg, J{"m": "disembargo", "kind": "senderLoopback", "n": 7, "tgt": "ans", "on": e["q"], "path": "f0"})
+	case "disembargo":
+		if e["kind"] == "senderLoopback" {
+			exp, ok := w.exportOf(1)
+			if !ok {
+				return
+			}
+			msg, rm := w.newMsg()
+			d, _ := rm.NewDisembargo()
+			d.Context().SetReceiverLoopback(uint32(e["n"].(int)))
+			t, _ := d.NewTarget()
+			t.SetImportedCap(uint32(exp))
+			w.deliver(msg, J{"m": "disembargo", "kind": "receiverLoopback", "n": e["n"], "tgt": "imp", "e": exp})
+		} else {
+			w.log(J{"ev": "peer-echo", "n": e["n"], "e": e["e"]})
+		}
+	}
 }
 
 // ---------------- peer -> Conn messages ----------------
@@ -313,6 +462,13 @@ func (w *world) newMsg() (*capnp.Message, rpccp.Message) {
 
 func (w *world) deliver(msg *capnp.Message, e J) {
 	e["ev"], e["dir"] = "msg", "recv"
+	if e["m"] == "call" {
+		if tag, ok := e["tag"].(int); ok {
+			w.mu.Lock()
+			w.recvTag[tag] = true
+			w.mu.Unlock()
+		}
+	}
 	w.log(e) // logged before it becomes visible to the Conn
 	w.toConn <- msg
 }
@@ -410,7 +566,7 @@ func (w *world) newCap(name string) *capnp.Client {
 			}
 		}
 		switch x {
-		case "ok-newcap", "ok-nocap", "ok-samecap":
+		case "ok-newcap", "ok-nocap", "ok-samecap", "ok-argcap":
 			res, err := call.AllocResults(capnp.ObjectSize{DataSize: 8, PointerCount: 1})
 			if err != nil {
 				w.log(J{"ev": "app-return", "tag": tag, "kind": "err"})
@@ -422,6 +578,19 @@ func (w *world) newCap(name string) *capnp.Client {
 				capname = fmt.Sprintf("K%d", tag)
 				id := res.Message().AddCap(w.newCap(capname))
 				res.SetPtr(0, capnp.NewInterface(res.Segment(), id).ToPtr())
+			}
+			if x == "ok-argcap" {
+				// return the capability received as parameter (an import of this connection)
+				w.mu.Lock()
+				c := w.handles[fmt.Sprintf("arg%d", tag)]
+				imp, ok := w.tagCap[tag]
+				w.mu.Unlock()
+				if c != nil && ok {
+					id := res.Message().AddCap(c.AddRef())
+					res.SetPtr(0, capnp.NewInterface(res.Segment(), id).ToPtr())
+					w.log(J{"ev": "app-return", "tag": tag, "kind": "ok", "cap": "", "e": imp})
+					return nil
+				}
 			}
 			w.log(J{"ev": "app-return", "tag": tag, "kind": "ok", "cap": capname})
 			return nil
@@ -507,7 +676,8 @@ func (w *world) waitStarted(tag int) bool {
 
 func runScript(id string, script []action) (trace []J, hang string) {
 	w := &world{toConn: make(chan *capnp.Message, 64), returns: map[int]J{}, qkind: map[int]string{},
-		cmds: map[int]chan string{}, started: map[int]chan struct{}{}, handles: map[string]*capnp.Client{}, tagCap: map[int]int{}, sentQ: map[int]bool{}, finQ: map[int]bool{}, lastEvent: time.Now()}
+		cmds: map[int]chan string{}, started: map[int]chan struct{}{}, handles: map[string]*capnp.Client{}, tagCap: map[int]int{}, sentQ: map[int]bool{}, finQ: map[int]bool{}, lastEvent: time.Now(),
+		answers: map[int]*capnp.Answer{}, nextPeerQ: 20, reflected: map[int]int{}, recvTag: map[int]bool{}}
 	w.log(J{"ev": "reset", "h": id})
 	for _, a := range script {
 		if a.A == "fault" {
@@ -524,7 +694,21 @@ func runScript(id string, script []action) (trace []J, hang string) {
 			w.step(a, &closed)
 			w.settle()
 		}
-		// wind down: complete every started method, release local handles, close
+		// wind down: the reflecting peer handles what is left in its inbox; complete every started method,
+		// release local handles, close
+		drain := func() {
+			for i := 0; i < 32 && !closed; i++ {
+				w.mu.Lock()
+				n := len(w.inbox)
+				w.mu.Unlock()
+				if n == 0 {
+					break
+				}
+				w.pump(action{})
+				w.settle()
+			}
+		}
+		drain()
 		w.mu.Lock()
 		for tag, st := range w.started {
 			select {
@@ -543,6 +727,17 @@ func runScript(id string, script []action) (trace []J, hang string) {
 			w.waitEvent("app-return", tag, 200*time.Millisecond)
 		}
 		w.settleFor(25 * time.Millisecond)
+		drain()
+		w.mu.Lock()
+		kr := w.keepRel
+		w.keepRel = nil
+		w.mu.Unlock()
+		for _, f := range kr {
+			f()
+		}
+		if len(kr) > 0 {
+			w.settleFor(10 * time.Millisecond)
+		}
 		w.log(J{"ev": "quiesce"})
 		if !closed {
 			w.mu.Lock()
@@ -708,7 +903,20 @@ func (w *world) step(a action, closed *bool) {
 			e["kind"] = "exception"
 		default:
 			p, _ := r.NewResults()
-			if a.Kind == "bootcap" {
+			if a.Kind == "loopcap" {
+				// the result is one of the Conn's own capabilities (the export returned in answer a.Exp)
+				exp, ok := w.exportOf(a.Exp)
+				if !ok {
+					return
+				}
+				st, _ := capnp.NewStruct(p.Segment(), capnp.ObjectSize{DataSize: 8, PointerCount: 1})
+				st.SetUint32(0, uint32(a.Tag))
+				st.SetPtr(0, capnp.NewInterface(p.Segment(), 0).ToPtr())
+				tab, _ := p.NewCapTable(1)
+				tab.At(0).SetReceiverHosted(uint32(exp))
+				e["caps"] = []interface{}{[]interface{}{"receiverHosted", exp}}
+				p.SetContent(st.ToPtr())
+			} else if a.Kind == "bootcap" {
 				// bootstrap result: the content is the capability itself
 				p.SetContent(capnp.NewInterface(p.Segment(), 0).ToPtr())
 				tab, _ := p.NewCapTable(1)
@@ -758,6 +966,28 @@ func (w *world) step(a action, closed *bool) {
 		}
 		tag := a.Tag
 		w.log(J{"ev": "l-call", "h": a.H, "tag": tag})
+		if a.Kind == "keep" {
+			// the answer is kept for pipelining: send synchronously, release at wind-down
+			ctx, cancel := context.WithTimeout(context.Background(), 3*time.Second)
+			ans, rel := c.SendCall(ctx, capnp.Send{Method: meth, ArgsSize: capnp.ObjectSize{DataSize: 8, PointerCount: 1}, PlaceArgs: placeTag(tag)})
+			w.mu.Lock()
+			w.answers[tag] = ans
+			w.keepRel = append(w.keepRel, func() { cancel(); rel() })
+			w.mu.Unlock()
+			w.wg.Add(1)
+			go func() {
+				defer w.wg.Done()
+				s, err := ans.Struct()
+				e := J{"ev": "l-result", "tag": tag, "kind": "ok"}
+				if err != nil {
+					e["kind"] = "err"
+				} else {
+					e["n"] = int(s.Uint32(0))
+				}
+				w.log(e)
+			}()
+			return
+		}
 		w.wg.Add(1)
 		go func() {
 			defer w.wg.Done()
@@ -786,6 +1016,44 @@ func (w *world) step(a action, closed *bool) {
 			w.log(e)
 			rel()
 		}()
+	case "l-pcall":
+		// a call pipelined on field 0 of the result of the kept local call a.On
+		w.mu.Lock()
+		base := w.answers[a.On]
+		w.mu.Unlock()
+		if base == nil {
+			return
+		}
+		tag := a.Tag
+		w.log(J{"ev": "l-pcall", "on": a.On, "tag": tag})
+		entered := make(chan struct{})
+		w.wg.Add(1)
+		go func() {
+			defer w.wg.Done()
+			ctx, cancel := context.WithTimeout(context.Background(), 3*time.Second)
+			defer cancel()
+			ans, rel := base.Field(0, nil).Client().SendCall(ctx, capnp.Send{Method: meth, ArgsSize: capnp.ObjectSize{DataSize: 8, PointerCount: 1}, PlaceArgs: placeTag(tag)})
+			close(entered)
+			s, err := ans.Struct()
+			e := J{"ev": "l-result", "tag": tag, "kind": "ok"}
+			if err != nil {
+				e["kind"] = "err"
+				if ctx.Err() != nil {
+					e["kind"] = "timeout"
+				}
+			} else {
+				e["n"] = int(s.Uint32(0))
+			}
+			w.log(e)
+			rel()
+		}()
+		// SendCall returns once the call is on the wire or delivered; under an embargo it blocks (that is the point)
+		select {
+		case <-entered:
+		case <-time.After(30 * time.Millisecond):
+		}
+	case "p-pump":
+		w.pump(a)
 	case "l-release":
 		w.mu.Lock()
 		c := w.handles[a.H]
